@@ -30,8 +30,24 @@ package obimultiplex
 //	                      and its extracted tags identify S under the declared mode (exact pair, or unique
 //	                      nearest declared tag per side for hamming / indel).
 //
+// Added by the audit of the check:
+//
+//	options    the sheets are also demultiplexed under the matching options of the command (-e N,
+//	           --with-indels, given to ExtractMultiBarcodeSliceWorker as IExtractBarcode gives them): the
+//	           compiled library must carry the overridden budgets / indel flags and every read class above is
+//	           re-run against the sheet with those budgets.
+//	sheets     per-primer / per-side indels (S8, S9), markers sharing primers (S10: the readers may refuse the
+//	           sheet, CheckPrimerUnicity; a sheet they accept is demultiplexed as any other).
+//	params     every sequence of one or two (thorough: three) @param lines out of the whole vocabulary of the
+//	           CSV format (each name in its global, per-side and per-primer forms) in front of a two-marker
+//	           sheet, through both readers: every marker field is what the lines declare, applied in order.
+//	history    every ordered pair and triple of a pool of reads of every kind goes through ONE library read
+//	           for the occasion (one by one, and as one slice): each read gives exactly the records (sequence
+//	           and every annotation) it gives alone on a library of its own.
+//
 // A second test (TestVerifC12CLI) drives IExtractBarcode / CLINGSFIlter with the command's own option
-// variables (-t, --keep-errors, -u) and checks the routing of flagged and assigned records.
+// variables (-t, --keep-errors, -u, and -e / --with-indels against the worker built with the same options)
+// and checks the routing of flagged and assigned records.
 
 import (
 	"encoding/json"
@@ -346,6 +362,9 @@ func (sh *c12Sheet) csvText() string {
 func (sh *c12Sheet) formats() []string {
 	if sh.Opt != nil {
 		return []string{"csv"} // the options act after the sheet is read: one reader is enough
+	}
+	if sh.Shared {
+		return []string{"old", "csv"} // both readers call CheckPrimerUnicity; csv-direct is the reader behind "csv"
 	}
 	if sh.OldOK {
 		return []string{"old", "csv", "csv-direct"}
@@ -1379,8 +1398,11 @@ func (h *c12H) enumerate() {
 			for mi := range sh.Markers {
 				m := &sh.Markers[mi]
 				sem := sh.Sem[mi]
-				tfs := c12tagVariants(c12distinct(m, true), m.ExtraF, thorough && !reduced)
-				trs := c12tagVariants(c12distinct(m, false), m.ExtraR, thorough && !reduced)
+				// every 1-substitution neighbour of the tags: thorough tier, sheets as written (the command options
+				// and the shared primers are about the primers, they keep the quick tag family)
+				allTags := thorough && !reduced && sh.Opt == nil && !sh.Shared
+				tfs := c12tagVariants(c12distinct(m, true), m.ExtraF, allTags)
+				trs := c12tagVariants(c12distinct(m, false), m.ExtraR, allTags)
 				pfs := c12primerVariants(m.F, sem.BudF)
 				prs := c12primerVariants(m.R, sem.BudR)
 				if reduced {
@@ -1587,11 +1609,15 @@ func c12histPool(sh *c12Sheet, format string) []c12Case {
 			mk("single", "tat", "gga", c12Amp{M: mi, TagF: s1.TagF, TagR: s1.TagR, PF: pfs[0], PR: prs[0], BC: ""}),
 			mk("chimera", "", "", good, unk),
 		)
+		// 12 nt: two bases then the first ten of the forward primer (a read shorter than the primers)
 		short := mk("truncated", "tat", "gga", good)
-		short.Cut, short.From, short.To = true, 3, 3+len(s0.TagF)+sem.SpF+9
+		at := c12build(sh, &short).sites[0].pos
+		short.Cut, short.From, short.To = true, max(at-2, 0), at+10
 		pool = append(pool, short)
 	}
-	nosite := mk("truncated", "acgtacgtacgtaaccggtt", "", c12Amp{M: 0, PF: "", PR: "", BC: ""})
+	// no priming site at all: the 20 nt flank of a read cut before its amplicon
+	nosite := mk("truncated", "acgtacgtacgtaaccggtt", "", c12Amp{M: 0, TagF: sh.Markers[0].Samples[0].TagF, TagR: sh.Markers[0].Samples[0].TagR,
+		PF: c12inst(sh.Markers[0].F, false), PR: c12inst(sh.Markers[0].R, false), BC: c12barcodes[0]})
 	nosite.Cut, nosite.From, nosite.To = true, 0, 20
 	pool = append(pool, nosite)
 	return pool
@@ -1963,28 +1989,24 @@ func (h *c12H) enumParams(k *int) {
 	}
 }
 
-// evalParams: the two-marker sheet with the given @param lines in front is read and compiled; every marker
-// field must be what the lines declare, applied in order.
-func (h *c12H) evalParams(c *c12Case) {
+// c12paramRun reads and compiles the two-marker base sheet with the given @param lines in front and compares
+// every marker field with what the lines declare, applied in order.
+func (h *c12H) c12paramRun(format string, lines [][]string) (sh *c12Sheet, diffs []c12fieldDiff, failed string) {
 	base := h.sheets["S2-two-markers"]
-	sh := &c12Sheet{Name: "params", Markers: base.Markers, Params: c.Params, NoEnum: true,
+	sh = &c12Sheet{Name: "params", Markers: base.Markers, Params: lines, NoEnum: true,
 		Sem: []c12Sem{c12defSem(), c12defSem()}}
-	last := map[string]string{}
-	for _, l := range c.Params {
-		for f := range c12applyParam(sh.Markers, sh.Sem, l) {
-			last[f] = c12paramName(l)
-		}
+	for _, l := range lines {
+		c12applyParam(sh.Markers, sh.Sem, l)
 	}
 	var lib *obingslibrary.NGSLibrary
 	var err error
-	crashed := ""
 	func() {
 		defer func() {
 			if x := recover(); x != nil {
-				crashed = c12crashText(x)
+				failed = c12crashText(x)
 			}
 		}()
-		if c.Format == "csv-direct" {
+		if format == "csv-direct" {
 			lib, err = obiformats.ReadCSVNGSFilter(strings.NewReader(sh.csvText()))
 		} else {
 			lib, err = obiformats.ReadNGSFilter(strings.NewReader(sh.csvText()))
@@ -1993,28 +2015,48 @@ func (h *c12H) evalParams(c *c12Case) {
 			lib.ExtractMultiBarcodeSliceWorker()
 		}
 	}()
+	if failed == "" && (err != nil || lib == nil) {
+		failed = fmt.Sprint("error: ", err)
+	}
+	if failed != "" {
+		return
+	}
+	diffs = c12diffFields(lib, sh)
+	return
+}
+
+// evalParams: a sequence of @param lines; a wrong field is attributed to the line after which it first shows.
+func (h *c12H) evalParams(c *c12Case) {
 	h.r.Eval(1)
 	h.r.Trans(int64(len(c.Params)))
 	h.r.Count("param_sheets", 1)
+	_, diffs, failed := h.c12paramRun(c.Format, c.Params)
+	if failed == "" && len(diffs) == 0 {
+		return
+	}
 	site := "ReadNGSFilter/csv"
 	if c.Format == "csv-direct" {
 		site = "ReadCSVNGSFilter/csv-direct"
 	}
-	names := ""
-	for _, l := range c.Params {
-		names += " @param," + strings.Join(l, ",")
-	}
-	if crashed != "" || err != nil || lib == nil {
-		h.r.Violate(site+"/param:"+c12paramName(c.Params[len(c.Params)-1])+"/rejects-valid-sheet", fmt.Sprintf("lines%s: %s %v", names, crashed, err), c)
-		return
-	}
-	for _, d := range c12diffFields(lib, sh) {
-		culprit := last[fmt.Sprintf("%d/%s", d.mi, d.field)]
-		if culprit == "" {
-			culprit = "none-declared"
+	for n := 1; n <= len(c.Params); n++ {
+		sh, diffs, failed := h.c12paramRun(c.Format, c.Params[:n])
+		if failed == "" && len(diffs) == 0 {
+			continue
 		}
-		h.r.Violate(site+"/param:"+culprit+"/wrong-"+d.field,
-			fmt.Sprintf("lines%s: marker %d (%s/%s): %s = %v, declared %v", names, d.mi, sh.Markers[max(d.mi, 0)].F, sh.Markers[max(d.mi, 0)].R, d.field, d.got, d.want), c)
+		names := ""
+		for _, l := range c.Params[:n] {
+			names += " @param," + strings.Join(l, ",")
+		}
+		culprit := c12paramName(c.Params[n-1])
+		if failed != "" {
+			h.r.Violate(site+"/param:"+culprit+"/rejects-valid-sheet", fmt.Sprintf("lines%s: %s", names, failed), c)
+			return
+		}
+		for _, d := range diffs {
+			h.r.Violate(site+"/param:"+culprit+"/wrong-"+d.field,
+				fmt.Sprintf("lines%s: marker %d (%s/%s): %s = %v, declared %v", names, d.mi, sh.Markers[max(d.mi, 0)].F, sh.Markers[max(d.mi, 0)].R, d.field, d.got, d.want), c)
+		}
+		return
 	}
 }
 
@@ -2044,11 +2086,17 @@ func TestVerifC12(t *testing.T) {
 	r.Bound("barcodes", c12barcodes)
 	r.Bound("primer_substitutions", "subsets of {first, middle, last} of size <= budget+1, one IUPAC alternative")
 	if verifkit.Thorough() {
-		r.Bound("tag_variants", "declared + every 1-substitution neighbour + tie / unknown extras")
+		r.Bound("tag_variants", "declared + every 1-substitution neighbour + tie / unknown extras (option and shared-primer sheets: neighbours at first and last position)")
 	} else {
 		r.Bound("tag_variants", "declared + 1-substitution neighbours at first and last position (one base) + tie / unknown extras")
 	}
 	r.Bound("chimeras", "ordered pairs and triples over 10 amplicons per marker")
+	r.Bound("options", "-e {0,1,3} / --with-indels / -e 1 --with-indels on S1; -e 1 --with-indels on S2; -e 2, --with-indels on S4; -e 1 on S5")
+	r.Bound("extra_sheets", "S8 forward-primer indels + hamming | S9 reverse indels, two markers | S10 three markers sharing primers (single and truncated reads)")
+	r.Bound("histories", "ordered pairs (one by one and as one slice) and triples of 10 reads per marker + 1 without site, fresh library per history")
+	r.Bound("param_lines", fmt.Sprintf("sequences of <= %d lines out of %d forms, 2 readers", map[bool]int{false: 2, true: 3}[verifkit.Thorough()], len(c12paramVocabulary())))
+	r.RequireNonVacuous("histories")
+	r.RequireNonVacuous("param_sheets")
 	r.RequireNonVacuous("construction:sample-expected")
 	r.RequireNonVacuous("construction:error-expected")
 	r.RequireNonVacuous("records_assigned")
@@ -2068,6 +2116,7 @@ type c12CLICase struct {
 	Keep   bool     `json:"keep"`
 	Unid   bool     `json:"unidentified"`
 	Reads  []string `json:"reads"`
+	Opt    *c12Opt  `json:"opt,omitempty"` // -e N / --with-indels
 }
 
 func c12drain(it obiiter.IBioSequence) obiseq.BioSequenceSlice {
@@ -2103,8 +2152,17 @@ func (h *c12H) evalCLI(dir string, c *c12CLICase) {
 		}
 		return s
 	}
-	// reference: the worker itself (checked by part 0) on the same reads
-	w := h.worker(sh, c.Format)
+	// reference: the worker itself (checked by part 0) on the same reads; with -e / --with-indels the worker
+	// built with the same options (part 0 checks it against the sheet with the overridden budgets)
+	ref0 := sh
+	if c.Opt != nil {
+		ref0 = h.sheets[sh.Name+c.Opt.suffix()]
+		if ref0 == nil {
+			ref0 = c12withOpt(sh, *c.Opt)
+			h.sheets[ref0.Name] = ref0
+		}
+	}
+	w := h.worker(ref0, c.Format)
 	if w == nil {
 		return
 	}
@@ -2132,6 +2190,9 @@ func (h *c12H) evalCLI(dir string, c *c12CLICase) {
 	}
 	_AllowedMismatch = -1
 	_AllowsIndel = false
+	if c.Opt != nil {
+		_AllowedMismatch, _AllowsIndel = c.Opt.E, c.Opt.Indels
+	}
 
 	var got obiseq.BioSequenceSlice
 	crashed := ""
@@ -2152,7 +2213,11 @@ func (h *c12H) evalCLI(dir string, c *c12CLICase) {
 	h.r.Eval(1)
 	h.r.Trans(int64(len(c.Reads)))
 	desc := func(msg string) string {
-		return fmt.Sprintf("%s | sheet %s (%s) keep-errors=%v unidentified=%v reads=%v", msg, c.Sheet, c.Format, c.Keep, c.Unid, c.Reads)
+		o := ""
+		if c.Opt != nil {
+			o = " options " + c.Opt.suffix()
+		}
+		return fmt.Sprintf("%s | sheet %s (%s) keep-errors=%v unidentified=%v%s reads=%v", msg, c.Sheet, c.Format, c.Keep, c.Unid, o, c.Reads)
 	}
 	if crashed != "" {
 		h.r.Violate("IExtractBarcode/panic-or-fatal", desc(crashed), c)
@@ -2169,6 +2234,9 @@ func (h *c12H) evalCLI(dir string, c *c12CLICase) {
 		opt = "unidentified"
 	} else if c.Keep {
 		opt = "keep-errors"
+	}
+	if c.Opt != nil {
+		opt += ":" + strings.TrimPrefix(c.Opt.suffix(), "+")
 	}
 	if strings.Join(gotOut, "\n") != strings.Join(wantOut, "\n") {
 		h.r.Violate("IExtractBarcode/"+opt+"/wrong-output-records", desc(fmt.Sprintf("output %v, expected %v", gotOut, wantOut)), c)
@@ -2286,6 +2354,49 @@ func TestVerifC12CLI(t *testing.T) {
 				}
 			}
 			rec(nil)
+		}
+	}
+	// ---- the matching options of the command line: -e N, --with-indels ----
+	for _, v := range c12OptVariants {
+		sh := h.sheets[v.Sheet]
+		formats := []string{"csv"}
+		if sh.OldOK {
+			formats = []string{"old", "csv"}
+		}
+		for _, format := range formats {
+			m := &sh.Markers[0]
+			s0, s1 := m.Samples[0], m.Samples[len(m.Samples)-1]
+			pfs, prs := c12primerVariants(m.F, 2), c12primerVariants(m.R, 2)
+			mkRead := func(c c12Case) string { c.Sheet, c.Format = sh.Name, format; return c12build(sh, &c).read }
+			amp := func(s c12Sample, pf, pr, bc string, rev bool) c12Amp {
+				return c12Amp{M: 0, TagF: s.TagF, TagR: s.TagR, PF: pf, PR: pr, BC: bc, Rev: rev}
+			}
+			unk := amp(s0, pfs[0], prs[0], c12barcodes[0], false)
+			unk.TagF = m.ExtraF[len(m.ExtraF)-1]
+			pool := []string{
+				mkRead(c12Case{Left: "tat", Right: "gga", Amps: []c12Amp{amp(s0, pfs[0], prs[0], c12barcodes[0], false)}}),
+				mkRead(c12Case{Amps: []c12Amp{amp(s1, pfs[0], prs[0], c12barcodes[1], true)}}),
+				mkRead(c12Case{Left: "tat", Amps: []c12Amp{unk}}),
+				"acgtacgtacgtaaccggtt",
+				mkRead(c12Case{Left: "tat", Right: "gga", Amps: []c12Amp{amp(s0, pfs[2], prs[0], c12barcodes[1], false)}}), // one substitution in the forward primer
+				mkRead(c12Case{Left: "tat", Right: "gga", Amps: []c12Amp{amp(s1, pfs[0], prs[6], c12barcodes[0], true)}}),  // two in the reverse primer
+				mkRead(c12Case{Left: "tat", Right: "gga", Amps: []c12Amp{amp(s1, pfs[7], prs[0], c12barcodes[0], false)}}), // three in the forward primer
+			}
+			for i1 := range pool {
+				for i2 := -1; i2 < len(pool); i2++ {
+					for opt := 0; opt < 3; opt++ {
+						if r.Mine(k) && !r.Expired() {
+							reads := []string{pool[i1]}
+							if i2 >= 0 {
+								reads = append(reads, pool[i2])
+							}
+							o := v.Opt
+							h.evalCLI(dir, &c12CLICase{Class: "cli", Sheet: sh.Name, Format: format, Keep: opt == 1, Unid: opt == 2, Reads: reads, Opt: &o})
+						}
+						k++
+					}
+				}
+			}
 		}
 	}
 }
